@@ -144,6 +144,10 @@ pub struct ExecRecord {
     pub panics: Vec<(usize, String)>,
     pub switches: u32,
     pub cas_weak_points: u64,
+    /// the threads of an abandoned execution did not come back (a loop in a
+    /// destructor that runs while unwinding): nothing of the crate may be
+    /// touched any more and the process has to end
+    pub runaway: bool,
 }
 
 struct Inner {
@@ -276,11 +280,50 @@ fn fnv(h: u64, x: u64) -> u64 {
 
 fn unwind_abort() -> ! {
     UNWINDING.with(|u| u.set(true));
+    UNWIND_OPS.with(|c| c.set(0));
     panic::resume_unwind(Box::new(AbortToken))
 }
 
 fn is_unwinding() -> bool {
-    UNWINDING.with(|u| u.get())
+    let u = UNWINDING.with(|u| u.get());
+    if u {
+        // destructors that run while an abandoned call unwinds are executed for
+        // real (pass-through). A destructor that waits for something that will
+        // never happen any more would spin here for ever: count, and end the
+        // process with what has been found so far
+        let n = UNWIND_OPS.with(|c| {
+            c.set(c.get() + 1);
+            c.get()
+        });
+        if n > 20_000_000 {
+            runaway_exit();
+        }
+    }
+    u
+}
+
+thread_local! {
+    static UNWIND_OPS: Cell<u64> = const { Cell::new(0) };
+}
+
+static PARTIAL: Mutex<String> = Mutex::new(String::new());
+
+/// Results so far, in the worker's output format (printed if the process has
+/// to end from inside a runaway cleanup).
+pub fn set_partial(s: String) {
+    if let Ok(mut p) = PARTIAL.lock() {
+        *p = s;
+    }
+}
+
+fn runaway_exit() -> ! {
+    let p = PARTIAL.lock().map(|p| p.clone()).unwrap_or_default();
+    print!("{}", p);
+    println!("STAT\tcapped\t1");
+    println!("ERR\tcleanup of an abandoned call did not terminate (a destructor run while unwinding keeps waiting); process ended early, findings so far are reported");
+    use std::io::Write;
+    let _ = std::io::stdout().flush();
+    std::process::exit(0);
 }
 
 pub fn install_panic_hook() {
@@ -1495,14 +1538,28 @@ pub fn run_threads(bodies: Vec<Body>, opts: &ExecOpts) -> ExecRecord {
         let g = s.lock();
         s.switch(NONE, g, PointKind::Blocked);
     }
+    let mut runaway = false;
     {
+        let t0 = std::time::Instant::now();
         let mut l = pool.latch.lock().unwrap();
         while *l > 0 {
-            l = pool.latch_cv.wait(l).unwrap();
+            let (g2, _) = pool
+                .latch_cv
+                .wait_timeout(l, std::time::Duration::from_millis(500))
+                .unwrap();
+            l = g2;
+            if *l > 0 && t0.elapsed().as_secs() >= 30 {
+                // executions take milliseconds; the step horizon bounds the
+                // explored phase, so this is cleanup that never ends
+                runaway = true;
+                break;
+            }
         }
     }
     let mut g = s.lock();
-    g.mode = Mode::Idle;
+    if !runaway {
+        g.mode = Mode::Idle;
+    }
     ExecRecord {
         status: g.status.take().unwrap_or(Status::Complete),
         choices: std::mem::take(&mut g.choices),
@@ -1512,5 +1569,6 @@ pub fn run_threads(bodies: Vec<Body>, opts: &ExecOpts) -> ExecRecord {
         panics: std::mem::take(&mut g.panics),
         switches: g.switches,
         cas_weak_points: g.cas_weak_seen,
+        runaway,
     }
 }
